@@ -20,9 +20,9 @@ def opt(name, v):
 
 
 def points():
-    for target in ("fn", "fnc", "mod", "trait"):
+    for target in ("fn", "fnc", "mod", "trait", "traitd", "traitr"):
         for macro, uni, api, mockall, export in itertools.product(MACROS, TRI, [False, True], TRI, TRI):
-            if target == "trait" and export is not None:
+            if target.startswith("trait") and export is not None:
                 continue  # `export` is not an option of trait inputs (rejected; C15/C17 negative corpus)
             # the requested trait visibility is not part of the property's oracle: the result must not depend on it
             for vis in ("", "pub ", "pub(crate) "):
@@ -56,6 +56,11 @@ def source(idx, p):
     elif p["target"] == "mod":
         args = ", ".join([p["vis"] + "T"] + opts)
         item = "#[%s(%s)] pub mod inner { pub fn f<D>(deps: &D, a: u8) -> u8 { a } }" % (p["macro"], args)
+    elif p["target"] in ("traitd", "traitr"):
+        # entraited trait WITH a delegation target (static selector trait / `ref`): same oracle as a plain trait
+        sel = "delegate_by = DelegateT" if p["target"] == "traitd" else "delegate_by = ref"
+        args = ", ".join(["TImpl", sel] + opts)
+        item = "#[%s(%s)] %strait T { fn f(&self, a: u8) -> u8; }" % (p["macro"], args, p["vis"])
     else:
         args = ", ".join(opts)
         item = "#[%s%s] %strait T { fn f(&self, a: u8) -> u8; }" % (p["macro"], "(%s)" % args if args else "", p["vis"])
@@ -86,7 +91,7 @@ def run(tier):
     for cfgname, feature, test in configs:
         # without the cargo feature the path ::entrait::__unimock does not exist: points that switch unimock
         # on explicitly are (expected) compile errors there and are left to the negative side
-        pts = [p for p in allpts if feature or not (p["unimock"] is True and (p["mock_api"] or p["target"] == "trait"))]
+        pts = [p for p in allpts if feature or not (p["unimock"] is True and (p["mock_api"] or p["target"].startswith("trait")))]
         dirname = os.path.join(CACHE, "gen", "c10_%s" % ("f" if feature else "nf"))
         generate(dirname, pts)
         where = {}
@@ -119,7 +124,7 @@ def run(tier):
             exp = by_mod.get(i)
             if exp is None:
                 raise CheckError("no expansion for lattice point %d" % i)
-            if p["target"] == "trait":
+            if p["target"].startswith("trait"):
                 v = TraitView(crate, exp)
                 trait = v.trait
             else:
@@ -153,7 +158,7 @@ def run(tier):
     rep.coverage.update({
         "evaluations": evaluations,
         "distinct_nontrivial": len(distinct),
-        "rule": "all points of {entrait, entrait_export} x unimock{absent,true,false} x mock_api{absent,present} x mockall{absent,true,false} x export{absent,true,false} x {fn with generic deps, fn with concrete deps, mod} plus the same without `export` for trait, each with the requested trait visibility private / pub / pub(crate) (1 080 points; the oracle does not depend on the visibility), in %d of the 4 configurations {feature} x {cfg(test)}; points that name unimock explicitly without the cargo feature reference a path that does not exist and are excluded there; every point is non-trivial (a distinct option set); observed per point: is there an `impl Trait for unimock::Unimock` (tcx impls), is the stub-mockall marker `MockT` defined, is the impl target T or Impl<T>" % len(configs),
+        "rule": "all points of {entrait, entrait_export} x unimock{absent,true,false} x mock_api{absent,present} x mockall{absent,true,false} x export{absent,true,false} x {fn with generic deps, fn with concrete deps, mod} plus the same without `export` for trait, trait with a static delegation target and trait with a `ref` delegation target, each with the requested trait visibility private / pub / pub(crate) (1 296 points; the oracle does not depend on the visibility), in %d of the 4 configurations {feature} x {cfg(test)}; points that name unimock explicitly without the cargo feature reference a path that does not exist and are excluded there; every point is non-trivial (a distinct option set); observed per point: is there an `impl Trait for unimock::Unimock` (tcx impls), is the stub-mockall marker `MockT` defined, is the impl target T or Impl<T>" % len(configs),
         "exhaustive": True,
         "explanation": "oracle transcribed from the property: unimock enabled = explicit value, else cargo feature; for fn/mod additionally mock_api given; mockall enabled = option true; exporting = explicit export value, else macro is entrait_export; a mock derivation is present in a configuration iff enabled and (exporting or cfg(test))",
     })
